@@ -139,6 +139,9 @@ func (c *ctx) checkCase(fam, shape, class, lock string, p types.SpendPolicy, e e
 		b.Count("agree_reject", 1)
 		b.SetAdd("reject_reasons_oracle", reason)
 	case realOK && !want:
+		if i := strings.Index(fam, "/"); i >= 0 {
+			reason += fam[i:] // directed families name the corner they probe
+		}
 		b.Violate("C14/verify-accepts/"+reason,
 			fmt.Sprintf("Verify accepted but the policy's meaning does not hold (%s) [%s %s %s]", reason, fam, trunc(shape, 120), class),
 			mkWit(fam, shape, class, p, e, sigs, pre, "reject:"+reason, cls))
